@@ -9,6 +9,26 @@ set_option linter.unusedVariables false
 namespace Opus.ExtProofs
 open Opus Opus.Ext
 
+/-- ID and frame index of an extension are what the API allows (the payload length is not constrained). -/
+structure IFExt (nbF : Nat) (e : Ext) : Prop where
+  id_lo : 3 ≤ e.id
+  id_hi : e.id ≤ 127
+  fr_lo : 0 ≤ e.frame
+  fr_hi : e.frame < nbF
+
+/-- Every array entry has a valid ID and frame index. -/
+def AllIF (exts : Array Ext) (nbF : Nat) : Prop := ∀ (j : Nat) (e : Ext), exts[j]? = some e → IFExt nbF e
+
+/-- The payload length is admissible: non-negative, and 0 or 1 for a short ID. -/
+def LenOk (e : Ext) : Prop := 0 ≤ e.len ∧ (e.id < 32 → e.len ≤ 1)
+
+instance (e : Ext) : Decidable (LenOk e) := by unfold LenOk; infer_instance
+
+theorem ValidExt.toIF {nbF : Nat} {e : Ext} (h : ValidExt nbF e) : IFExt nbF e := ⟨h.id_lo, h.id_hi, h.fr_lo, h.fr_hi⟩
+theorem ValidExt.lenOk {nbF : Nat} {e : Ext} (h : ValidExt nbF e) : LenOk e := ⟨h.len_lo, h.short⟩
+theorem validExt_of {nbF : Nat} {e : Ext} (h1 : IFExt nbF e) (h2 : LenOk e) (h3 : e.len ≤ e.data.length) : ValidExt nbF e :=
+  ⟨h1.id_lo, h1.id_hi, h1.fr_lo, h1.fr_hi, h2.1, h2.2, h3⟩
+
 /-- What `frame_min_idx[]` / `frame_max_idx[]` satisfy after the first `i` extensions were scanned. -/
 structure ScanInv (exts : Array Ext) (nbF i : Nat) (mn mx : List Nat) : Prop where
   lmn : mn.length = nbF
@@ -26,7 +46,7 @@ theorem getD_set_eq (l : List Nat) (i v : Nat) (h : i < l.length) : (l.set i v).
 theorem getD_set_ne (l : List Nat) (i j v : Nat) (h : i ≠ j) : (l.set i v).getD j 0 = l.getD j 0 := by
   simp [List.getD, List.getElem?_set_ne h]
 
-theorem scanLoop_spec (exts : Array Ext) (nbF : Nat) (hv : ∀ (j : Nat) (e : Ext), exts[j]? = some e → ValidExt nbF e)
+theorem scanLoop_specIF (exts : Array Ext) (nbF : Nat) (hv : AllIF exts nbF)
     (i : Nat) (mn mx : List Nat) :
     ScanInv exts nbF i mn mx → i ≤ exts.size →
     ∃ mn' mx', scanLoop exts (nbF : Int) i mn mx = .ok (mn', mx') ∧ ScanInv exts nbF exts.size mn' mx' := by
@@ -100,6 +120,12 @@ theorem scanLoop_spec (exts : Array Ext) (nbF : Nat) (hv : ∀ (j : Nat) (e : Ex
     have : i = exts.size := by omega
     subst this
     exact ⟨mn, mx, rfl, hI⟩
+
+theorem scanLoop_spec (exts : Array Ext) (nbF : Nat) (hv : ∀ (j : Nat) (e : Ext), exts[j]? = some e → ValidExt nbF e)
+    (i : Nat) (mn mx : List Nat) :
+    ScanInv exts nbF i mn mx → i ≤ exts.size →
+    ∃ mn' mx', scanLoop exts (nbF : Int) i mn mx = .ok (mn', mx') ∧ ScanInv exts nbF exts.size mn' mx' :=
+  scanLoop_specIF exts nbF (fun j e h => (hv j e h).toIF) i mn mx
 
 theorem scanInv_init (exts : Array Ext) (nbF : Nat) :
     ScanInv exts nbF 0 (List.replicate nbF exts.size) (List.replicate nbF 0) := by
